@@ -108,6 +108,8 @@ where
                         Poll::Ready(Ok(_)) => {
                             if si.start_send_unpin(Frame::Error(err)).is_ok() {
                                 *buffered_err = Some((None, si));
+                                // Flush and close the rejected replier straight away
+                                continue;
                             }
                         }
                         Poll::Ready(Err(e)) => warn!("Could not poll replier sink: {e:?}"),
@@ -129,25 +131,30 @@ where
             }
 
             match handle.as_mut().poll_next(cx) {
-                Poll::Ready(Some(sock)) => match sock {
-                    Socket::Client((si, st)) => {
-                        stream.as_mut().insert(*next_id, st);
-                        sink.as_mut().insert(*next_id, si);
+                Poll::Ready(Some(sock)) => {
+                    match sock {
+                        Socket::Client((si, st)) => {
+                            stream.as_mut().insert(*next_id, st);
+                            sink.as_mut().insert(*next_id, si);
 
-                        *next_id += 1;
-                    }
-                    Socket::Server((si, st)) => {
-                        if server.is_some() {
-                            let error_payload = ErrorPayload {
-                                code: REPLIER_ALREADY_BOUND,
-                                message: "A replier already exists for this topic".into(),
-                            };
-                            *buffered_err = Some((Some(error_payload), si));
-                        } else {
-                            let _ = server.insert((si, st));
+                            *next_id += 1;
+                        }
+                        Socket::Server((si, st)) => {
+                            if server.is_some() {
+                                let error_payload = ErrorPayload {
+                                    code: REPLIER_ALREADY_BOUND,
+                                    message: "A replier already exists for this topic".into(),
+                                };
+                                *buffered_err = Some((Some(error_payload), si));
+                            } else {
+                                let _ = server.insert((si, st));
+                            }
                         }
                     }
-                },
+                    // More sockets may be queued: poll the channel again so that we
+                    // never park without having registered our waker with it.
+                    continue;
+                }
                 // If handle is terminated, the stream is dead
                 Poll::Ready(None) => {
                     ready!(sink.as_mut().poll_flush(cx)).unwrap();
@@ -167,7 +174,9 @@ where
                         && buffered_req.is_none()
                         && buffered_rep.is_none() =>
                 {
-                    return Poll::Pending
+                    // A previous flush may still be pending
+                    ready!(sink.as_mut().poll_flush(cx)).unwrap();
+                    return Poll::Pending;
                 }
                 // Otherwise, move on with running the stream
                 Poll::Pending => (),
